@@ -92,6 +92,121 @@ func corrProbe(r *Rng, which string) (line, got string) {
 			q.Y *= 1 << 20
 		}
 		return fmt.Sprintf("model pip %d %d %s", q.X, q.Y, pathStr(p)), fmt.Sprint(int(clip.PointInPolygon(q, p)))
+	case "vertex":
+		p := corrPath(r)
+		if r.Chance(0.3) && len(p) > 0 {
+			p = append(p, p[0]) // explicit closing vertex
+		}
+		open := r.Chance(0.35)
+		pts, fl, mn, ok := clip.VVertexRing(p, open)
+		got := "none"
+		if ok {
+			got = fmt.Sprintf("%s | %s | %s", showPath(pts), strings.Trim(fmt.Sprint(fl), "[]"), strings.Trim(fmt.Sprint(mn), "[]"))
+		}
+		return fmt.Sprintf("model vertex %d %s", b2i(open), pathStr(p)), got
+	case "clean":
+		p := corrPath(r)
+		preserve := r.Bool()
+		out, recs := clip.VCleanCollinear(p, preserve)
+		got := showPath(out)
+		// fixSelfIntersects (not modelled) runs after the loop: the model answers "skip" when its
+		// ring has two crossing next-but-one edges, and the comparison is dropped then
+		_ = recs
+		return fmt.Sprintf("model clean %d %s", b2i(preserve), pathStr(p)), got
+	case "build":
+		p := corrPath(r)
+		rev, open := r.Bool(), r.Chance(0.3)
+		q, ok := clip.VBuildPath(p, rev, open)
+		got := "false"
+		if ok {
+			got = showPath(q)
+		}
+		if len(p) == 0 {
+			return "model build 0 0 0", "false"
+		}
+		return fmt.Sprintf("model build %d %d %s", b2i(rev), b2i(open), pathStr(p)), got
+	case "tree":
+		// a laminar family of rectangles (nested with a margin, or disjoint) ...
+		type box struct{ l, t, r, b int64 }
+		boxes := []box{{0, 0, 1000, 1000}}
+		n := r.Range(1, 8)
+		for len(boxes) < n {
+			p := boxes[r.Intn(len(boxes))]
+			w, h := p.r-p.l, p.b-p.t
+			if w < 40 || h < 40 {
+				boxes = append(boxes, box{p.l + 2000*int64(len(boxes)), p.t, p.l + 2000*int64(len(boxes)) + 50, p.t + 50}) // far away: disjoint
+				continue
+			}
+			// left or right half of the parent, shrunk by a margin: siblings made this way are disjoint only
+			// if they use different halves; overlapping siblings are avoided by checking
+			nb := box{p.l + w/10, p.t + h/10, p.l + w/2 - w/10, p.b - h/10}
+			if r.Bool() {
+				nb = box{p.l + w/2 + w/10, p.t + h/10, p.r - w/10, p.b - h/10}
+			}
+			okb := true
+			for _, q := range boxes {
+				nested := (q.l < nb.l && nb.r < q.r && q.t < nb.t && nb.b < q.b) || (nb.l < q.l && q.r < nb.r && nb.t < q.t && q.b < nb.b)
+				disjoint := nb.r < q.l || q.r < nb.l || nb.b < q.t || q.b < nb.t
+				if !nested && !disjoint {
+					okb = false
+				}
+			}
+			if okb {
+				boxes = append(boxes, nb)
+			} else {
+				boxes = append(boxes, box{p.l + 2000*int64(len(boxes)), p.t - 3000, p.l + 2000*int64(len(boxes)) + 60, p.t - 2940})
+			}
+		}
+		// shuffle so that indices are unrelated to nesting
+		for i := len(boxes) - 1; i > 0; i-- {
+			j := r.Intn(i + 1)
+			boxes[i], boxes[j] = boxes[j], boxes[i]
+		}
+		// ... with arbitrary (acyclic) owner links, arbitrary splits lists and some emptied records
+		rank := make([]int, n)
+		for i := range rank {
+			rank[i] = i
+		}
+		for i := n - 1; i > 0; i-- {
+			j := r.Intn(i + 1)
+			rank[i], rank[j] = rank[j], rank[i]
+		}
+		recs := make([]clip.VRec, n)
+		var sb strings.Builder
+		for i := range recs {
+			rc := &recs[i]
+			rc.Owner = -1
+			if r.Chance(0.75) {
+				var cands []int
+				for j := range recs {
+					if rank[j] < rank[i] {
+						cands = append(cands, j)
+					}
+				}
+				if len(cands) > 0 {
+					rc.Owner = cands[r.Intn(len(cands))]
+				}
+			}
+			rc.SplitsNil = r.Chance(0.5)
+			if !rc.SplitsNil {
+				for k := r.Range(0, 3); k > 0; k-- {
+					rc.Splits = append(rc.Splits, r.Intn(n))
+				}
+			}
+			rc.HasPts = r.Chance(0.8)
+			b := boxes[i]
+			rc.Rect = clip.NewRect64(b.l, b.t, b.r, b.b)
+			fmt.Fprintf(&sb, " %d %d %d", rc.Owner, b2i(rc.SplitsNil), len(rc.Splits))
+			for _, s := range rc.Splits {
+				fmt.Fprintf(&sb, " %d", s)
+			}
+			fmt.Fprintf(&sb, " %d %d %d %d %d", b2i(rc.HasPts), b.l, b.t, b.r, b.b)
+		}
+		got := ""
+		if f := safeCall(func() { got = strings.Trim(fmt.Sprint(clip.VBuildTree(recs)), "[]") }); f != "" {
+			got = "fault"
+		}
+		return "model tree" + sb.String(), got
 	case "strip":
 		p := corrPath(r)
 		closed := r.Bool()
@@ -302,7 +417,7 @@ func corrProbe(r *Rng, which string) (line, got string) {
 }
 
 var genProbes = []string{"triSign", "multiplyUInt64", "productsAreEqual", "isCollinear", "CrossProduct", "dotProduct64", "segsIntersect", "checkPrecision", "IsOdd", "ptsReallyClose", "isContributingClosed", "isContributingOpen", "getLocation", "getEdgesForPt", "isHeadingClockwise", "headingClockwise", "getAdjacentLocation", "areOpposites", "hasHorzOverlap", "hasVertOverlap", "isClockwise", "getSegmentIntersection", "getSegmentIntersectPt", "rectMethods", "getBounds", "GetBounds64", "Area64", "PerpendicDistFromLineSqr64"}
-var modelProbes = []string{"trim", "simp64", "pip", "strip", "mink"}
+var modelProbes = []string{"trim", "simp64", "pip", "strip", "mink", "vertex", "clean", "build", "tree", "tree"}
 
 func corrStage(name string, probes []string, quick, thorough int, rule string) {
 	stages[name] = func(ctx *Ctx, cnt func(q, t int) int, replay string) Result {
@@ -318,6 +433,11 @@ func corrStage(name string, probes []string, quick, thorough int, rule string) {
 			if i < 2*len(probes) && i%2 == 0 {
 				col.Sample(corrCase{line, got, want})
 			}
+			if want == "skip" {
+				// the model declares the case outside what it models (see the probe)
+				col.AddN("skipped_by_model", 1)
+				return
+			}
 			if got != want && !col.KindFull(which) {
 				col.Violate(Violation{Kind: which, Signature: sigOf(line), Detail: fmt.Sprintf("%s: code returned %q, model %q", line, trunc(got, 300), trunc(want, 300)), Case: corrCase{line, got, want}, Stream: name, Index: i, Seed: ctx.Seed})
 			}
@@ -329,5 +449,5 @@ func corrStage(name string, probes []string, quick, thorough int, rule string) {
 func init() {
 	corrStage("gen-corr", genProbes, 56000, 2800000, "translator validation: every generated function (Gen.*) is evaluated by the Lean oracle on operand-value inputs and compared with the real function called in-process (sign only for float64 cross / dot products, bit patterns for Area64 and PerpendicDistFromLineSqr64); non-trivial = any probe with a non-empty argument list")
 	corrStage("wind-corr", []string{"windc", "windx", "windd", "windc", "windd"}, 60000, 2500000, "correspondence of the winding-count bookkeeping model (Model.Wind) with the real setWindCountForClosedPathEdge / setWindCountForOpenPathEdge / intersectEdges (counts, hotness afterwards and output records created, for hot / cold / front / back / shared-record combinations) run on synthetic active-edge lists (verif hook): 0-5 edges left of the new edge, subject / clip / open edges, all four fill rules, counts either produced by the real insertion (consistent states) or arbitrary in -3..3; resulting counts compared exactly")
-	corrStage("models-corr", modelProbes, 50000, 2500000, "function-level correspondence of the hand models (TrimCollinear64, SimplifyPath64, PointInPolygon, StripDuplicates, minkowskiInternal): random paths of 0-8 vertices on 2-4 wide grids (forcing duplicates, collinear runs, wrap-around cases) at three magnitudes; outputs compared exactly")
+	corrStage("models-corr", modelProbes, 80000, 3000000, "function-level correspondence of the hand models (TrimCollinear64, SimplifyPath64, PointInPolygon, StripDuplicates, minkowskiInternal, addPathsToVertexList [vertex ring, flags, local minima], cleanCollinear's removal loop and buildPath on synthetic output rings, buildTree on synthetic tables of output records with nested / disjoint rectangles, arbitrary owner links and splits lists): random paths of 0-8 vertices on 2-4 wide grids (forcing duplicates, collinear runs, wrap-around cases) at three magnitudes; outputs compared exactly; the clean probe is skipped when fixSelfIntersects (not modelled) would act")
 }
